@@ -413,6 +413,8 @@ from_slice_case!(slice_ecb_cs3, 16, cts::EcbCs3<Uf<U4, U1>>);
 stream_total!(total_ctr32be_b4, 48, core_ctr32be, u32, U4, 4, 9);
 stream_total!(total_ctr64le_b8, 64, core_ctr64le, u64, U8, 8, 10);
 stream_total!(total_belt, 100, core_belt, u128, U16, 16, 2);
+stream_total!(total_ctr128le_b16_n2, 100, core_ctr128le, u128, U16, 16, 2);
+stream_total!(total_ctr128be_b16_n2, 100, core_ctr128be, u128, U16, 16, 2);
 stream_total!(t_total_belt_n17, 100, core_belt, u128, U16, 16, 17);
 cts_total!(total_cts_cbc_cs1_b1, 48, CbcCs1, U1, 1, U2, 4);
 cts_total!(total_cts_cbc_cs3_b1_w1, 48, CbcCs3, U1, 1, U1, 4);
